@@ -326,6 +326,23 @@ def curated():
                  ["window", "transition", "derived-on-derived", "early-start", "atmost"]))
     out.append(D("window1-start0-over-transition-implied", [c2, transition_rep("s", "c", A2), early("v")], cross(["c", "s", "v"], ["c"]),
                  ["window", "transition", "derived-on-derived", "early-start", "implied"]))
+    # an Exclude on a within-trial derived level whose factor is in ONE crossing while ANOTHER crossing holds its sources (each crossing is reduced on its own)
+    for md in ("equal", "weight"):
+        out.append(D(f"multi-exclude-derived-other-crossing-{md}", [c2, w2_, cong_, d2],
+                     multi(["c", "w", "k", "d"], [["c", "w"], ["k", "d"]], [["Exclude", "k", "same"]], rcc=False, mode=md), ["multi", "within", "exclude", "derived-crossed"]))
+    # preamble trials drawn from the basic levels that are left after an Exclude of a basic level of an uncrossed factor
+    out.append(D("transition-crossed-exclude-uncrossed-basic", [c2, e3, transition_rep("s", "e", A3)], cross(["c", "e", "s"], ["c", "s"], [["Exclude", "e", "b"]]),
+                 ["transition", "derived-crossed", "preamble", "exclude"]))
+    # a crossed within-trial factor whose levels have DIFFERENT numbers of completions by its uncrossed source, with a partial last run (leftover)
+    is_r = fac("k", ["yes", "no"], derive("within", ["e"], fn=lambda l, x: (x[0] == "r") == (l == "yes"), levels=["yes", "no"], dep_levels=[A3]))
+    out.append(D("within-only-crossed-unequal-min3", [e3, is_r], cross(["e", "k"], ["k"], [["MinimumTrials", 3]]), ["within", "derived-crossed", "mintrials", "partial", "unequal-completions"]))
+    out.append(D("within-only-crossed-unequal", [e3, is_r], cross(["e", "k"], ["k"]), ["within", "derived-crossed", "unequal-completions"]))
+    # Merge of a block WITHOUT preamble that carries its own run-length constraint with a block that has a preamble trial (alignment modes):
+    # the first block's constraint covers its whole run, preamble trial and last trial included
+    for al, tag in (("post preamble", "post"), ("parallel start", "parallel")):
+        out.append(D(f"merge-own-atmost-{tag}", [d2, fac("g", ["p", "q"]), c2, transition_rep("s", "c", A2)],
+                     merge([cross(["d", "g"], ["d", "g"], [["AtMostKInARow", 1, "d", "x"]]), cross(["c", "s"], ["c", "s"])], mode="weight", alignment=al),
+                     ["merge", "atmost", "preamble", tag]))
     # --- continuous factors next to the discrete design (C08, C20 only: SC.design_space(continuous=True))
     wdu_ = fac("d", [["x", 2], ["y", 1]])
     for nz in (1, 2):
